@@ -14,7 +14,8 @@ Msgs == { M(<<47>>, <<>>),
           M(<<47, 97>>, <<A("i", <<0, 1>>)>>),
           M(<<47, 97, 98, 99>>, <<A("s", <<>>), A("T", <<>>)>>),
           M(<<47, 35, 98>>, <<A("b", <<1, 2, 3>>), A("h", <<1, 2, 3, 4>>)>>),      \* address "/#b"
-          M(<<47, 98, 117, 110, 100, 108, 101>>, <<A("[", <<>>), A("f", <<16256, 0>>), A("]", <<>>)>>) }   \* "/bundle"
+          M(<<47, 98, 117, 110, 100, 108, 101>>, <<A("[", <<>>), A("f", <<16256, 0>>), A("]", <<>>)>>),     \* "/bundle"
+          M(<<35, 98, 117, 110, 100, 108, 101, 115>>, <<A("i", <<0, 7>>)>>) }                                    \* "#bundles": a message whose address only BEGINS like the bundle marker
 TTs == { <<0, 0, 0, 1>>, <<65535, 65535, 65535, 65535>>, <<4660, 22136, 39612, 57072>> }
 RECURSIVE Nested(_)
 Nested(d) == IF d = 0 THEN Msgs
